@@ -50,6 +50,9 @@ def getter_model(fields):
             if key == "stride" and "stride" not in order:
                 key = "num_cols"
             return [(st, tgt.fs[order.index(key)], "return", "")]
+        if isinstance(tgt, Opaque):
+            # another 2D object of unknown dimensions (e.g. the `src: &impl TooDeeOps<T>` of a copy)
+            return [(st, Int(st.sym.int("other_" + name)), "return", "")]
         raise Unsupported(f"getter {name} on {tgt}")
     return h
 
